@@ -366,13 +366,18 @@ func rulePayloadOwn(c *Ctx) {
 const textOperandLoop = "R-C05-operand-loop: a set-algebra worker (result *redisDict, looping over its key-name operands) answers before it has looked at every operand only to report a failure: it never returns the partially accumulated result from inside the loop — a missing operand is an empty set, and the operands after it still count — and not the empty set either (the absorbing case of an intersection, a missing first operand of a difference): Redis 7 examines every operand before it answers, so a wrong-typed key behind a missing one is WRONGTYPE"
 
 func ruleOperandLoop(c *Ctx) {
-	c.S.Rule("R-C05-operand-loop", textOperandLoop, 3)
+	c.S.Rule("R-C05-operand-loop", textOperandLoop, 1)
 	for _, fn := range c.SrcFuncs() {
 		res := fn.Signature.Results()
 		if fn.Blocks == nil || res.Len() < 1 {
 			continue
 		}
-		if p, ok := res.At(0).Type().(*types.Pointer); !ok || !c.isPkgType(p.Elem(), "redisDict") {
+		// a worker that yields the computed set, or the resolver that yields the operand sets for it
+		rt := res.At(0).Type()
+		if sl, isSl := rt.Underlying().(*types.Slice); isSl {
+			rt = sl.Elem()
+		}
+		if p, ok := rt.(*types.Pointer); !ok || !c.isPkgType(p.Elem(), "redisDict") {
 			continue
 		}
 		// loops over a []string parameter
